@@ -413,6 +413,23 @@ pub fn apply(img: &mut Vec<u8>, p: &Parsed, c: &Corr) -> Option<String> {
                 put(img, off, &h.to_le_bytes());
                 return Some(format!("mini chain {} tail -> head", h));
             }
+            if role % 10 == 8 {
+                // a regular stream whose chain is cyclic *and* whose size claims far more than
+                // the chain holds: position arithmetic far beyond the real data
+                let streams: Vec<usize> = p.entries.iter().enumerate().filter(|(_, e)| e.typ == 2 && e.size >= 4096).map(|(i, _)| i).collect();
+                if streams.is_empty() {
+                    return None;
+                }
+                let i = streams[pick(c.sel, streams.len())];
+                let ch = p.chain(p.entries[i].start).0;
+                let tail = *ch.last()?;
+                let off = fat_cell_off(p, tail as usize)?;
+                put(img, off, &ch[0].to_le_bytes());
+                let size: u64 = [1u64 << 40, 1u64 << 62, i64::MAX as u64, (1u64 << 32) + 5, 1u64 << 31][c.val as usize % 5];
+                let eoff = p.entry_offsets[i] + 120;
+                put(img, eoff, &size.to_le_bytes());
+                return Some(format!("stream entry {}: chain {} tail -> head and size = {:#x}", i, ch[0], size));
+            }
             if role % 10 == 5 {
                 // DIFAT chain: the last DIFAT sector's next cell -> some DIFAT sector
                 let last = *p.difat_sectors.last()?;
